@@ -23,6 +23,10 @@ partial def decPat : Sexp → Option IPat
   | .list [.atom "pstr"] => some .str
   | .list [.atom "ptint", t] => do pure (.tint (← decTy t))
   | .list (.atom "ptuple" :: ps) => do pure (.tuple (← optMapM decPat ps))
+  | .list (.atom "pconstr" :: .list [.atom "ctor", t, k] :: ps) => do
+      pure (.constr (some (some (← decTy t, ← k.nat?))) (← optMapM decPat ps))
+  | .list (.atom "pconstr" :: .list [.atom "noctor"] :: ps) => do pure (.constr (some none) (← optMapM decPat ps))
+  | .list (.atom "pconstr" :: .list [.atom "ambiguous"] :: ps) => do pure (.constr none (← optMapM decPat ps))
   | _ => none
 
 def decName : Sexp → Option NameRes
@@ -148,6 +152,7 @@ partial def annotPat : IPat → Ty → TPat
   | .int, vty => .lit (if isIntegerTy vty then vty else .int 32 true) vty
   | .str, _ => .lit .string .string
   | .tint k, _ => .lit k k
+  | .constr _ ps, vty => .constr (ps.map fun p => annotPat p .unit) vty
   | .tuple ps, vty =>
     let tys := match vty with
       | .tuple tys => if tys.length = ps.length then tys else ps.map fun _ => Ty.unit
